@@ -3,6 +3,8 @@ pub mod conngen;
 pub mod gram;
 pub mod obs;
 pub mod respbuild;
+pub mod srvexec;
+pub mod srvgen;
 pub mod stream;
 
 /// Receive-window size of the crate build this harness is linked against.
